@@ -355,6 +355,12 @@ def gen_run(g, k, n=None, kdt=None, unit=None, decimal=False, **extra):
     v = dt_si / si.factor('TimeInterval', u)
     if decimal:
         v = float(f'{v:.3g}')
+    if extra.pop('dyadic', False):
+        # a step that is an exact binary fraction: k*dt, sums and differences
+        # of grid times are then exact in floating point (boundary injection)
+        import math as _m
+        q = 7 - int(_m.floor(_m.log2(v)))
+        v = round(v * 2.0 ** q) / 2.0 ** q
     op = {'op': 'run', 'dt': [v, u], 'n': n, 'control': False, 'stop': None,
           'solver': 'same'}
     if g.chance(0.5):
@@ -916,3 +922,137 @@ def gen_tv(g):
 
 PROFILES['query'] = gen_query
 PROFILES['tv'] = gen_tv
+
+
+# ---------------------------------------------------------------------------
+# C14 / C15 / C08: control
+
+def gen_ctrl(g, profile='ctrl'):
+    r = g.rng
+    scn, model, chain = base_scenario(
+        g, profile, n_target=r.choice([2, 3, 3, 4, 5, 6, 8]),
+        force_worm=True if g.chance(0.25) else None,
+        data_level=r.choice([0, 0, None]))
+    mot = scn['elements'][0]
+    if mot['i0'] is None and g.chance(0.85):
+        m2 = g.motor('e0_motor', current=True)
+        mot['i0'], mot['imax'] = m2['i0'], m2['imax']
+        model = model_of(scn['elements'], scn['decls'])
+    has_current = mot['i0'] is not None
+    msi = model.e[0]
+    k, R, E, J = rm.rate_constant(model, chain)
+    w_out = msi['w0'] / R
+    scn['load'] = gen_load(
+        g, model, chain, overload=r.choice([0.05, 0.2, 0.5, 0.9]),
+        families=r.choice([['const'], ['const'], ['const', 'visc'],
+                           ['visc'], ['const', 'sintime'], ['quad']]))
+    if g.cfg.get('nonneg_load'):
+        for t in scn['load']['terms']:
+            for key in ('c', 'A'):
+                if key in t and t['t'] in ('const',):
+                    t[key] = abs(t[key])
+    th0 = 0.0 if g.chance(0.7) else r.uniform(-2, 2)
+    scn['init'] = {'position': g.q('AngularPosition', th0),
+                   'speed': g.q('AngularSpeed',
+                                0.0 if g.chance(0.7) else r.uniform(-0.3, 1.1) * w_out),
+                   'pwm': r.choice([None, None, 1, 0.5, 0, -1])}
+    kdt = g.logu(0.03, 0.8)
+    n1 = r.randint(*g.cfg.get('steps', (8, 70)))
+    dyadic = g.chance(0.6)
+    sched = [gen_run(g, k, n=n1, kdt=kdt, dyadic=dyadic)]
+    if g.chance(0.35):
+        sched.append(gen_run(g, k, kdt=kdt, dyadic=dyadic))
+    if g.chance(0.1):
+        sched.append({'op': 'reset', 'reapply': True})
+        sched.append(gen_run(g, k, n=n1, kdt=kdt, dyadic=dyadic,
+                             solver=r.choice(['same', 'new'])))
+    scn['schedule'] = sched
+    n_total = sum(o['n'] for o in sched if o['op'] == 'run')
+    T_total = sum(run_T_si(o) for o in sched if o['op'] == 'run')
+    dt_q = sched[0]['dt']
+    dt_si = si.q_si('TimeInterval', dt_q)
+    # distance the output can travel within the horizon
+    reach = w_out * T_total * r.uniform(0.2, 0.8)
+
+    def enc_target():
+        tgt = r.choice(chain)
+        Rt = 1.0
+        for c in chain[chain.index(tgt) + 1:]:
+            Rt *= model.ratio[c]
+        return tgt, Rt
+
+    def rule(kind):
+        if kind == 'Scripted':
+            return scripted_rule(g, n_total, msi, wild=True,
+                                 density=r.choice([0.1, 0.3, 0.6, 1.0]))
+        if kind == 'ConstantPWM':
+            # edges on grid instants on purpose (F-BOUNDARY) or anywhere
+            if g.chance(0.5):
+                # exactly on grid instants, in the unit of the step
+                i0 = r.randint(0, max(1, n_total // 2))
+                j0 = r.randint(1, max(2, n_total // 2))
+                return {'kind': 'ConstantPWM',
+                        'start': [i0 * dt_q[0], dt_q[1]],
+                        'duration': [j0 * dt_q[0], dt_q[1]],
+                        'value': r.choice([0, 1, -1, 0.5,
+                                           round(r.uniform(-1, 1), 3)])}
+            else:
+                start = r.uniform(0, 0.7) * T_total
+                dur = r.uniform(0.05, 0.6) * T_total
+            return {'kind': 'ConstantPWM', 'start': g.q('Time', start),
+                    'duration': g.q('TimeInterval', dur),
+                    'value': r.choice([0, 1, -1, 0.5, round(r.uniform(-1, 1), 3)])}
+        tgt, Rt = enc_target()
+        if kind == 'ReachAngularPosition':
+            target = (th0 + reach * r.uniform(0.5, 1.5)) * Rt
+            brake = abs(reach) * Rt * r.uniform(0.05, 0.6) + 1e-6
+            return {'kind': kind, 'enc': tgt,
+                    'target': g.q('AngularPosition', target),
+                    'brake': g.q('Angle', brake)}
+        if kind == 'StartProportional':
+            target = (th0 + reach * r.uniform(0.05, 0.6)) * Rt
+            if abs(target) < 1e-9:
+                target = 1e-3 * Rt
+            return {'kind': kind, 'enc': tgt,
+                    'target': g.q('AngularPosition', target),
+                    'mult': r.choice([2, 1.5, 3.0, round(r.uniform(1.05, 6), 2)]),
+                    'pwm_min': r.choice([None, 0.1, 0.3])}
+        if kind == 'StartLimitCurrent':
+            tach = chain[0] if g.chance(0.7) else r.choice(chain)
+            i0, imax = msi['i0'], msi['imax']
+            lim = r.uniform(max(i0 * 1.2, 0.05 * imax), imax * 1.1)
+            target = (th0 + reach * r.uniform(0.05, 0.6)) * Rt
+            return {'kind': kind, 'enc': tgt, 'tach': tach,
+                    'target': g.q('AngularPosition', target),
+                    'limit': g.q('Current', lim)}
+        raise AssertionError(kind)
+    pool = ['ConstantPWM', 'ReachAngularPosition', 'Scripted']
+    if has_current:
+        pool += ['StartProportional', 'StartLimitCurrent', 'StartLimitCurrent']
+    c = r.random()
+    if c < 0.05:
+        kinds = []
+    elif c < 0.45:
+        kinds = [r.choice(pool)]
+    elif c < 0.75:
+        kinds = [r.choice(pool), r.choice(pool)]
+    elif c < 0.9:
+        kinds = [r.choice(pool) for _ in range(3)]
+    else:
+        kinds = [r.choice(pool) for _ in range(4)]
+    if g.cfg.get('only_scripted'):
+        kinds = ['Scripted']
+    scn['rules'] = [rule(kd) for kd in kinds]
+    for op in sched:
+        if op['op'] == 'run':
+            op['control'] = bool(scn['rules']) or g.chance(0.5)
+    if not scn['rules']:
+        # an empty rule set is still a controller (default duty 1)
+        scn['rules'] = [{'kind': 'Scripted', 'table': {}}]
+        for op in sched:
+            if op['op'] == 'run':
+                op['control'] = True
+    return scn
+
+
+PROFILES['ctrl'] = gen_ctrl
